@@ -13,6 +13,44 @@ fn main() {
         std::process::exit(2);
     }
     let prop = args[1].clone();
+    if prop == "clusterdemo" {
+        nv::node::record_panic_locations();
+        let scratch = format!("/dev/shm/nv-demo-{}", std::process::id());
+        let t0 = Instant::now();
+        let mut c = nv::cluster::Cluster::new(&scratch, 3, &[100, 200, 300]);
+        for i in 0..3 {
+            c.boot(i);
+        }
+        let ok = c.run(&mut |_n| 0, 100_000);
+        println!("quiescent={} steps={} virtual_ms={} real={:?}", ok, c.steps, c.now_ns / 1_000_000, t0.elapsed());
+        for i in 0..3 {
+            println!("n{} role={:?} members={:?}", i, c.role(i).map(|r| r.to_string()), c.members(i));
+        }
+        let out = c.client(0, vec![format!("auth {} {}", nv::node::USER, nv::node::PWD), "create-db d tok".into(), "use-db d tok".into(), "set k v1".into()]);
+        println!("client: {:?}", out);
+        let ok = c.run(&mut |_n| 0, 100_000);
+        println!("quiescent={} steps={}", ok, c.steps);
+        for i in 0..3 {
+            let d = c.nodes[i].node.as_ref().unwrap().dump();
+            println!("n{} d={:?} pending={}", i, d.get("d"), c.nodes[i].node.as_ref().unwrap().pending_ops());
+        }
+        c.kill(0);
+        let ok = c.run(&mut |_n| 0, 100_000);
+        println!("after kill n0: quiescent={} steps={} virtual_ms={}", ok, c.steps, c.now_ns / 1_000_000);
+        for i in 0..3 {
+            println!("n{} role={:?} members={:?}", i, c.role(i).map(|r| r.to_string()), c.members(i));
+        }
+        println!("panics: {:?}", c.panics);
+        println!("events: {:?}", c.election_events);
+        if std::env::var("NV_TRACE").is_ok() {
+            for l in c.trace.iter() {
+                println!("  {}", l);
+            }
+        }
+        drop(c);
+        let _ = std::fs::remove_dir_all(&scratch);
+        return;
+    }
     if prop == "selftest" {
         let ok = nv::props::selftest();
         std::process::exit(if ok { 0 } else { 2 });
